@@ -58,7 +58,7 @@ class Environment:
             else:
                 nodes = self.sources[source].query(query, namespace, tags=tags)
         else:         # use values parsed in the current file
-            if not self.nodes:
+            if self.nodes is None:
                 raise Exception(f"Local nodes are not available for DIP import:", path)
             nodes = self.nodes.query(query, tags=tags)
         if count:
